@@ -88,6 +88,21 @@ def rev_iter(ctx, rule):
     ctx.check(any(q.same_test(x, "Le(Sub(var:(&str, usize, usize).1,cast<usize>(Token::get_dst_col(%s))),U2)" % TOK) for x in sw), rule, fn, "backward:stop",
               "the backward scan covers (cached column - token column) UTF-16 units", detail=str([s for s in sw if "U2" in s]))
     ctx.check(any(q.same_test(x, "Eq(cast<usize>(Token::get_dst_line(%s)),try(arg1.source_line).1)" % TOK) for x in sw), rule, fn, "cache:same-line", "the cached line is reused only for a token on the same generated line")
+    # ... and on the side where the lines are equal (a test and its negation read alike above): every value built from the
+    # cached components sits under the Eq fact; every freshly fetched line does not
+    LINE_EQ = ("Eq", "cast<usize>(Token::get_dst_line(%s))" % TOK, "try(arg1.source_line).1")
+    reuse = fresh = 0
+    for l in range(len(b.locals)):
+        if not b.local_ty(l).startswith("(&") or l in b.var_names and False:
+            continue
+        for sh, site, e in q.def_shapes(b, l, {}):
+            if "try(arg1.source_line).0" in sh:
+                reuse += 1
+                ctx.check(has_fact(b, site[0], {}, LINE_EQ), rule, fn, "cache:reuse-when-same-line", "the cached line text and offsets are reused only when the token is on the cached line", ctx.site(b, *site))
+            elif "SourceView::get_line(" in sh:
+                fresh += 1
+                ctx.check(not has_fact(b, site[0], {}, LINE_EQ), rule, fn, "cache:fetch-otherwise", "a token on another line (or an empty cache) fetches its own line", ctx.site(b, *site))
+    ctx.check(reuse >= 1 and fresh >= 1, rule, fn, "cache:both-sides", "the line cache has a reuse side and a fetch side", detail="reuse %d fetch %d" % (reuse, fresh))
     # cached tuple order
     stores = [q.shape(b.expr_of_rvalue(s["rv"]), roles) for bi, si, s, it in b.locations() if not it and s["k"] == "assign" and s["place"]["p"] and s["place"]["p"][-1].get("n") == "source_line"]
     want = "Option::Some{0:tuple(var:(&str, usize, usize).0,cast<usize>(Token::get_dst_line(%s)),cast<usize>(Token::get_dst_col(%s)),var:usize)}" % (TOK, TOK)
